@@ -28,7 +28,7 @@ func verifChainText(name string, n int) string {
 // migrating one version at a time gives, and for a source before 13.4 and a
 // target from 13.5 on the send_msg action's template variables and their
 // translation (arbitrary texts) arrive in template_variables.
-// cover: multi-step, crosses-13.4-and-13.5, translations-arrived, crosses-13.3, webhook-in-translation-only
+// cover: multi-step, crosses-13.4-and-13.5, translations-arrived, crosses-13.3, webhook-in-translation-only, webhook-in-another-case
 func VerifC16_Chain() {
 	verifFaultAt = [2]int{-1, -1}
 	from := 1 + zzverif.Choice("source-version", 5) // (13.0 templating objects have no UUID and so no translations)
@@ -63,7 +63,12 @@ func VerifC16_Chain() {
 		spa["a1"].(map[string]any)["template_variables"] = []any{t1, "w2"}
 	}
 	// the message text and its translation refer to @webhook in both, in the base text only or in the translation only
-	baseText, spaText := "hi @webhook", "hola @webhook.name"
+	// (context references are case-insensitive: the reference may be spelled in any case)
+	ref := []string{"@webhook", "@Webhook", "@WEBHOOK"}[zzverif.Choice("webhook-spelling", 3)]
+	if ref != "@webhook" {
+		zzverif.Cover("webhook-in-another-case")
+	}
+	baseText, spaText := "hi "+ref, "hola "+ref+".name"
 	switch zzverif.Choice("webhook-referenced-in", 3) {
 	case 1:
 		spaText = "hola"
@@ -100,8 +105,8 @@ func VerifC16_Chain() {
 		zzverif.Cover("crosses-13.3")
 		gotBase, _ := out.Nodes()[0].Actions()[0]["text"].(string)
 		gotSpa := out.Localization().GetLanguageTranslation("spa").GetTranslation("a1", "text")
-		zzverif.Assert(gotBase == strings.ReplaceAll(baseText, "@webhook", "@webhook.json"), "the base text was not rewritten to keep its meaning")
-		zzverif.Assert(len(gotSpa) == 1 && gotSpa[0] == strings.ReplaceAll(spaText, "@webhook", "@webhook.json"), "a translation was not rewritten to keep its meaning")
+		zzverif.Assert(gotBase == strings.ReplaceAll(baseText, ref, "@webhook.json"), "the base text was not rewritten to keep its meaning")
+		zzverif.Assert(len(gotSpa) == 1 && gotSpa[0] == strings.ReplaceAll(spaText, ref, "@webhook.json"), "a translation was not rewritten to keep its meaning")
 	}
 	if to >= 5 {
 		sm = out.Nodes()[0].Actions()[0]
